@@ -15,7 +15,7 @@ import (
 func init() {
 	register("C06", &propDef{
 		Title: "Source addresses print to strings that parse back to the same address",
-		Rules: []func(*Checker){ruleC06Ctor, ruleC06Sanitiser, ruleC06URLPath, ruleC06SubRaw, ruleC06FinalPattern, ruleC06Host, ruleC06CanonURL, aliasRuleFiltered(ruleC07Query, "C07.query", "C06.query", 1, func(o Oblig) bool { return strings.Contains(o.Key, "archive value normalised") }), ruleC06Manifest, ruleC06Print},
+		Rules: []func(*Checker){ruleC06Ctor, ruleC06Sanitiser, ruleC06URLPath, ruleC06SubRaw, ruleC06FinalPattern, ruleC06Host, ruleC06CanonURL, aliasRuleFiltered(ruleC07Query, "C07.query", "C06.query", 1, func(o Oblig) bool { return strings.Contains(o.Key, "archive value normalised") }), ruleC06Manifest, ruleC06Print, ruleAddrErrors("C06.errors")},
 		NotDecided: []string{
 			"the round trip itself: URL escaping, fragments, case folding, registry-address normalisation are facts about string contents",
 			"idempotence of printing for every accepted spelling",
@@ -23,7 +23,7 @@ func init() {
 	})
 	register("C07", &propDef{
 		Title: "Accepted remote addresses always satisfy the documented transport policy",
-		Rules: []func(*Checker){ruleC07Routes, ruleC07Schemes, ruleC07Query, ruleC06SubpathOnly("C07.subpath")},
+		Rules: []func(*Checker){ruleC07Routes, ruleC07Schemes, ruleC07Query, ruleC06SubpathOnly("C07.subpath"), ruleAddrErrors("C07.errors")},
 		NotDecided: []string{
 			"'every address that follows the documented grammar is accepted' (needs the grammar)",
 			"shorthand expansion correctness; query-argument counting beyond the presence of the tests (map contents)",
@@ -520,6 +520,73 @@ func ruleC06Print(c *Checker) {
 			}
 		}
 		c.check(len(missing) == 0, R, p.FuncName(fn), "prints all identifying parts", p.Pos(fn.Pos()), "all identifying fields and separators are used", "String() no longer uses "+strings.Join(missing, ", ")+": distinct addresses would print the same / not parse back")
+		// per return: the "//sub-path" form exactly when the sub-path is not empty; every constant
+		// separator of the type on every return that has no "//" exemption
+		if len(s.consts) > 0 {
+			isSub := func(v ssa.Value) bool {
+				v = canon(v)
+				switch x := v.(type) {
+				case *ssa.Field:
+					return fieldOf(x) != nil && fieldOf(x).Name() == "subPath"
+				case *ssa.UnOp:
+					if fa, ok := x.X.(*ssa.FieldAddr); ok {
+						return fieldOf(fa) != nil && fieldOf(fa).Name() == "subPath"
+					}
+				case *ssa.Call:
+					return calleeObj(x) != nil && calleeObj(x).Name() == "SubPath"
+				}
+				return false
+			}
+			isCmp := func(v ssa.Value, op token.Token) bool {
+				bo, ok := v.(*ssa.BinOp)
+				if !ok || bo.Op != op {
+					return false
+				}
+				if e, ok := constString(bo.Y); ok && e == "" && isSub(bo.X) {
+					return true
+				}
+				if e, ok := constString(bo.X); ok && e == "" && isSub(bo.Y) {
+					return true
+				}
+				return false
+			}
+			neT, neF := condEdges(fn, func(v ssa.Value) bool { return isCmp(v, token.NEQ) })
+			eqT, eqF := condEdges(fn, func(v ssa.Value) bool { return isCmp(v, token.EQL) })
+			nonEmpty := append(neT, eqF...)
+			empty := append(neF, eqT...)
+			for i, r := range returnsOf(fn) {
+				if len(r.Results) != 1 {
+					continue
+				}
+				sl := p.backSlice(r.Results[0], 0)
+				cs := map[string]bool{}
+				usesSub := false
+				for w := range sl {
+					if k, ok := constString(w); ok {
+						cs[k] = true
+					}
+					if isSub(w) {
+						usesSub = true
+					}
+				}
+				why := ""
+				if cs["//"] {
+					if !usesSub {
+						why = "the \"//\" separator is printed without the sub-path after it"
+					} else if !guarded(r.Block(), nonEmpty) {
+						why = "the \"//\" form is returned on a path where the sub-path can be empty: an address without a sub-path prints with a trailing \"//\", which does not parse back"
+					}
+				} else if !guarded(r.Block(), empty) {
+					why = "the form without \"//\" is returned on a path where the sub-path can be non-empty: the sub-path is lost in print, so two different addresses print the same"
+				}
+				for _, k := range s.consts {
+					if k != "//" && !cs[k] && why == "" {
+						why = "the separator " + strconv.Quote(k) + " is missing from this return's value: what is printed does not parse back"
+					}
+				}
+				c.check(why == "", R, p.FuncName(fn), fmt.Sprintf("return %d form matches the sub-path test", i), p.Pos(r.Pos()), "\"//\"+sub-path exactly when the sub-path is not empty; all separators present", why)
+			}
+		}
 	}
 }
 
@@ -1056,6 +1123,7 @@ func ruleC11LocalForm(c *Checker) {
 	for _, fn := range sortedFuncs(hosts) {
 		name := p.FuncName(fn)
 		n := 0
+		covered := map[string]bool{}
 		eachInstr(fn, func(in ssa.Instruction) {
 			add, ok := in.(*ssa.BinOp)
 			if !ok || add.Op != token.ADD {
@@ -1084,8 +1152,90 @@ func ruleC11LocalForm(c *Checker) {
 			}
 			eqT := anyTrueEdges(fn, func(v ssa.Value) bool { return match(v, token.EQL) })
 			_, neF := condEdges(fn, func(v ssa.Value) bool { return match(v, token.NEQ) })
+			// which of the parser's constants lead here
+			for _, e := range append(append([]Edge{}, eqT...), neF...) {
+				ifi := e.From.Instrs[len(e.From.Instrs)-1].(*ssa.If)
+				cnd, _ := stripNot(ifi.Cond)
+				var conds []ssa.Value
+				if _, isPhi := cnd.(*ssa.Phi); isPhi {
+					rs, _ := flagReasons(cnd, map[ssa.Value]bool{})
+					for _, r := range rs {
+						conds = append(conds, r.Cond)
+					}
+				} else {
+					conds = []ssa.Value{cnd}
+				}
+				for _, cv := range conds {
+					if bo, ok := cv.(*ssa.BinOp); ok {
+						if s2, ok := constString(bo.Y); ok {
+							covered[s2] = true
+						}
+					}
+				}
+			}
 			c.check(guarded(add.Block(), append(eqT, neF...)), R, name, fmt.Sprintf("trailing slash %d", n), p.Pos(add.Pos()), "appended only when the joined path equals one of "+strings.Join(tl, ", "), "a trailing slash is appended to the joined local path on a condition other than an exact comparison with "+strings.Join(tl, " / ")+": results such as ../.. become ../../, which the local-source parser refuses as non-canonical — resolving against a local base fails for them")
 		})
+		// a host that joins two paths and hands the result to the parser must have the slash site, and the
+		// site must be reached for every constant of the parser's table
+		joins := false
+		for _, ci := range callsIn(fn) {
+			if ci.Common().StaticCallee() == parser {
+				for w := range p.backSlice(ci.Common().Args[0], 0) {
+					if cl, ok := w.(*ssa.Call); ok && isFunc(calleeObj(cl), "path", "Join") {
+						joins = true
+					}
+				}
+			}
+		}
+		if !joins {
+			continue
+		}
+		// partial evaluation on the parser's own constants: with the joined path equal to c, what is handed
+		// to the parser is exactly c + "/"
+		for _, ci := range callsIn(fn) {
+			if ci.Common().StaticCallee() != parser {
+				continue
+			}
+			arg := ci.Common().Args[0]
+			var join *ssa.Call
+			for w := range p.backSlice(arg, 0) {
+				if cl, ok := w.(*ssa.Call); ok && isFunc(calleeObj(cl), "path", "Join") {
+					join = cl
+				}
+			}
+			if join == nil {
+				continue
+			}
+			var ks []string
+			for k := range table {
+				ks = append(ks, k)
+			}
+			sort.Strings(ks)
+			for _, k := range ks {
+				ev := p.newEvaluator(func(f *ssa.Function, v ssa.Value) (absVal, bool) {
+					if f == fn && v == ssa.Value(join) {
+						return absConst(constant.MakeString(k)), true
+					}
+					return absVal{}, false
+				})
+				params := make([]absVal, len(fn.Params))
+				for i := range params {
+					params[i] = absTop
+				}
+				res := ev.evalFunc(fn, params)
+				got := res.Eval(arg)
+				okv := !got.isTop() && len(got.vals) == 1 && got.vals[0].Kind() == constant.String && constant.StringVal(got.vals[0]) == k+"/"
+				shown := "an unknown value"
+				if !got.isTop() {
+					var xs []string
+					for _, v := range got.vals {
+						xs = append(xs, v.ExactString())
+					}
+					shown = strings.Join(xs, " or ")
+				}
+				c.check(okv, R, name, fmt.Sprintf("joined path %q is handed to the parser as %q", k, k+"/"), p.Pos(ci.Pos()), "by partial evaluation with the joined path fixed to "+strconv.Quote(k), "with the joined path equal to "+strconv.Quote(k)+" the parser is handed "+shown+", not "+strconv.Quote(k+"/")+" — the only spelling of it the parser accepts: a resolution whose result is that path (./a + ../, ./ + ../) fails with a canonical-form error")
+			}
+		}
 		_ = n
 	}
 }
